@@ -37,8 +37,8 @@ CHECKS = {
  "C03": ("exploration", "specification-derived query family executed on real Worlds, every result validated by TLC against the query semantics of spec/Access.tla evaluated on the reference map",
          "132 generated queries (view kinds alone and pairwise, orders, identifier view, nested filters, views as filters, World::entry, every Entries super/sub-view pairing, iteration combined with entry views) are run at random points of random histories; TLC checks the result set or multiset, per-item values and identities, None exactly when absent, writes visible on exactly the matched entities, and lo <= remaining <= hi for every size_hint.",
          "The family is finite and fixed; zero-sized and 1-byte components are compared by value.", "6 C03"),
- "C09": ("exploration", "par_query results on rayon pools of 1-16 threads validated by TLC against the sequential query semantics",
-         "The parallel-capable part of the query family is run with par_query on worlds with many, empty, short and long tables under pools of 1,2,3,4,8,16 threads; TLC requires the multiset of results to equal the reference answer, every entity once, writes equal to the sequential semantics, and pairwise distinct addresses among mutably yielded values. rayon's stealing is sampled, not enumerated (DESIGN section 10).",
+ "C09": ("model_checking", "TLC model checking of the producer split algebra (spec/ParSplit.tla) + par_query results on rayon pools of 1-16 threads validated by TLC against the sequential query semantics",
+         "ParSplit: for every split tree of the zipped producers (mutable slice, RepeatNone, shared slice) every row is yielded exactly once. The parallel-capable part of the query family is run with par_query on worlds with many, empty, short and long tables under pools of 1,2,3,4,8,16 threads; TLC requires the multiset of results to equal the reference answer, every entity once, writes equal to the sequential semantics, and pairwise distinct addresses among mutably yielded values. rayon's stealing is sampled, not enumerated (DESIGN section 10).",
          "Split patterns are those rayon produces for the sampled pool sizes.", "6 C09"),
  "C07": ("model_checking", "TLC model checking of the run-time staging model + TLC trace validation of every admissible execution order of generated schedules (deterministic fork/join shim) and of real rayon runs",
          "spec/Schedule.tla (stage-by-stage fork, add-on scan, joins) is checked for ExactlyOnce and SeqEquivalent over all schedules of <=3 tasks x 8 world contents x all execution orders; 136 (quick) / ~750 (thorough) generated schedules over 17 task kinds are executed on real Worlds in every order the fork/join structure admits and on rayon pools of 1/2/4/8 threads, and TLC requires every task exactly once, conflicting tasks in declared order, and final world, resources and per-task observations equal to running the tasks one by one on a twin world.",
